@@ -244,6 +244,12 @@ var regexpTests = []struct {
 	{pat: `[0-4A-Z]`, want: `(?s)[0-4A-Z]`},
 	{pat: `[-a]`, want: `(?s)[-a]`},
 	{pat: `[^-a]`, want: `(?s)[^-a]`},
+	{
+		pat: `[-*]`, want: `(?s)[-*]`,
+		mustMatch:    []string{"-", "*"},
+		mustNotMatch: []string{"+"},
+	},
+	{pat: `[!-*]`, want: `(?s)[^-*]`},
 	{pat: `[a-]`, want: `(?s)[a-]`},
 	{pat: `[[:digit:]]`, want: `(?s)[[:digit:]]`},
 	{
